@@ -87,9 +87,9 @@ Theorem C04_set_monitor_delegated_refuted :
 Proof. exact m04d_refuted. Qed.
 Print Assumptions C04_set_monitor_delegated_refuted.
 
-(** Partial (excluded: ObjectSets being deleted / archived, with distinct phase-object names, whose local phases list
-    the same object identity twice - the guard m04 itself carries): otherwise the monitor accepts every pass of the
-    model. *)
+(** Partial (excluded: ObjectSets being deleted / archived, with distinct phase-object names, in which two DIFFERENT local
+    phases list the same object identity - weaker than the guard m04 itself carries, which also excludes a repetition
+    within one phase): otherwise the monitor accepts every pass of the model. *)
 Theorem C04_set_monitor_delegated_sound_partial :
   forall c : scase, going_keys_nodup c = true -> m04d (set_obs_s c (SetCorr.model_run c)) = true.
 Proof. exact m04d_sound_partial. Qed.
